@@ -327,41 +327,60 @@ def run(ctx, rep, model=None):
            "for any other type only `return False` is reachable" if okl else "an unregistered type can be declared serializable",
            fd.loc)
 
-    # ------------------------------------------------------------------ R04.2
+    # ------------------------------------------------------------------ R04.2  (model evaluation of the two dispatchers)
+    from .. import miniinterp as MI
     f_dump = ctx.func(BR + "._dump")
-    disp = None
-    for c in A.calls(f_dump.node):
-        if isinstance(c.func, ast.Call) and isinstance(c.func.func, ast.Attribute) and c.func.func.attr == "get" \
-                and A.dotted(c.func.func.value) == "_dump_registry":
-            disp = c
-    if disp is None:
-        raise AnalysisError("_dump no longer dispatches through _dump_registry.get(...)")
-    key = disp.func.args[0] if disp.func.args else None
     oprm = A.params(f_dump.node)[0]
-    okk = isinstance(key, ast.Call) and A.call_name(key) == "type" and A.src(key.args[0]) == oprm
-    rep.ob("R04.2", "brine._dump: dispatch key is the exact type of the value", okk,
-           "_dump_registry.get(type(obj), ...)" if okk else "dispatch key is `%s`" % (A.src(key) if key else None),
-           ctx.loc(disp), kind="site")
-    dflt = disp.func.args[1] if len(disp.func.args) > 1 else None
-    okd = False
-    why = "no default: an unknown type raises TypeError('NoneType' object is not callable) by accident only"
-    if dflt is not None and isinstance(dflt, ast.Name):
-        r = ctx.repo.resolve_name(mod, dflt.id)
-        if r and r[0] == "func":
-            gu = ctx.cfg(r[1], raises="default")
-            reach_exit = gu.exit in Q.reach(gu.entry, labels=("next", "true", "false"))
+    rep.analysed(f_dump)
+
+    _sent = {}
+
+    def sentinel_globals(name):
+        vals = mod.toplevel.get(name)
+        if vals and isinstance(vals[-1], ast.Call) and A.call_name(vals[-1]) == "object" and not vals[-1].args:
+            return True, _sent.setdefault(name, MI.ModelObj("sentinel " + name))
+        return False, None
+    # the undumpable default: the function every path of which raises TypeError
+    refusers = []
+    for q, fu in ctx.repo.funcs.items():
+        if fu.module is mod and fu.parent is None and fu.cls is None:
+            gu = ctx.cfg(fu, raises="default")
             raised = set()
             for n in gu.live:
                 if isinstance(n.ast, ast.Raise):
                     raised |= set(n.raises or ())
-            okd = not reach_exit and raised == {TypeError}
-            why = "default %s: every path raises %s" % (dflt.id, sorted(k.__name__ for k in raised))
-    rep.ob("R04.2", "brine._dump: values of any other type are refused with TypeError", okd, why,
-           ctx.loc(dflt) if dflt is not None else ctx.loc(disp))
-    args_ok = [A.src(a) for a in disp.args] == A.params(f_dump.node)
-    rep.ob("R04.2", "brine._dump: the selected dumper receives (obj, stream)", args_ok,
-           "arguments forwarded unchanged" if args_ok else "dumper called with %s" % [A.src(a) for a in disp.args],
-           ctx.loc(disp), kind="site")
+            if gu.exit not in Q.reach(gu.entry, labels=("next", "true", "false")) and raised == {TypeError}:
+                refusers.append(fu.name)
+    T1, T2, T3 = MI.ModelObj("type:registered"), MI.ModelObj("type:other-registered"), MI.ModelObj("type:unregistered")
+    calls_d = []
+    reg = {T1: lambda *a: calls_d.append(("dumper1",) + a), T2: lambda *a: calls_d.append(("dumper2",) + a)}
+
+    def refuse(*a):
+        calls_d.append(("refused",) + a)
+        raise MI.Raised("TypeError")
+    glob = {"_dump_registry": reg}
+    for r_ in refusers:
+        glob[r_] = refuse
+    bad_d = []
+    for tp, want in ((T1, "dumper1"), (T2, "dumper2"), (T3, "refused")):
+        del calls_d[:]
+        obj = MI.ModelObj("value", cls=tp)
+        stream = []
+        try:
+            MI.call_function(f_dump.node, [obj, stream], {"__globals__": glob, "__global_lookup__": sentinel_globals})
+            out = "returns"
+        except MI.Raised as r_:
+            out = "raises " + r_.name
+        good = (want != "refused" and out == "returns" and calls_d == [(want, obj, stream)] and not stream) or \
+               (want == "refused" and out == "raises TypeError" and not stream and all(c[0] == "refused" for c in calls_d))
+        if not good:
+            bad_d.append("a value of %s: %s, calls %s, emitted %r" % (tp.name, out, [c[0] for c in calls_d], stream))
+    rep.ob("R04.2", "brine._dump: dispatch key is the exact type of the value", not bad_d,
+           "model: the dumper registered for type(obj) is called once with (obj, stream); an unregistered type is refused with "
+           "TypeError; _dump emits nothing itself" if not bad_d else "; ".join(bad_d), f_dump.loc, kind="table")
+    rep.ob("R04.2", "brine._dump: values of any other type are refused with TypeError", bool(refusers) and not bad_d,
+           "default %s: every path raises TypeError" % refusers if refusers and not bad_d else
+           "no refusing default (a function whose every path raises TypeError) is consulted for unregistered types", f_dump.loc)
 
     # every use of the value in the dispatcher goes through its exact type or into the selected dumper: no lookup, comparison
     # or emission keyed by the value itself happens before the type is known (1 == True == 1.0 would share an entry)
@@ -371,7 +390,8 @@ def run(ctx, rep, model=None):
             par = getattr(n, "_parent", None)
             if isinstance(par, ast.Call) and A.call_name(par) == "type" and par.args and par.args[0] is n:
                 continue
-            if isinstance(par, ast.Call) and par is disp and any(a is n for a in par.args):
+            if isinstance(par, ast.Call) and any(a is n for a in par.args) and A.call_name(par) not in ("len", "str", "repr", "hash", "id"):
+                # handed to the selected dumper (the model evaluation above checks which callee that is)
                 continue
             stray.append(n)
     emits = [c for c in A.calls(f_dump.node) if isinstance(c.func, ast.Attribute) and c.func.attr in ("append", "extend", "write")]
@@ -425,15 +445,32 @@ def run(ctx, rep, model=None):
     rep.ob("R04.4", "brine: IMM_INTS_LOADER is the inverse of IMM_INTS", inv,
            "%d entries" % len(m.imm_loader) if inv else "IMM_INTS_LOADER is not the inverse map", mod.relpath, kind="table")
     rep.floor("R04.4", "immediate ints", len(m.imm), 200)
-    # _load: immediate ints looked up through the loader table, everything else through the registry
+    # _load: model evaluation - one tag byte is read; immediate ints come from the loader table, every other tag goes to
+    # its registered loader (with the stream), an unknown tag is refused
     f_load = ctx.func(BR + "._load")
-    src_load = A.src(f_load.node)
-    okl = "IMM_INTS_LOADER" in src_load and "_load_registry" in src_load and bool(
-        [c for c in A.calls(f_load.node) if A.call_name(c) and A.call_name(c).endswith(".read")
-         and c.args and ctx.try_fold(c.args[0]) == 1])
+    sp = A.params(f_load.node)[0]
+    bad_l = []
+    for tag, want in ((b"\x55", ("imm", 5)), (b"\x01", ("loader", "L1")), (b"\xee", ("raise", None))):
+        reads = []
+        lcalls = []
+
+        def rd_(n, tag=tag, reads=reads):
+            reads.append(n)
+            return tag
+        stream_obj = MI.ModelObj("stream")
+        glob_l = {"IMM_INTS_LOADER": {b"\x55": 5}, "_load_registry": {b"\x01": lambda st, lcalls=lcalls: (lcalls.append(st), "L1")[1]}}
+        try:
+            got = MI.call_function(f_load.node, [stream_obj], {"__calls__": {"%s.read" % sp: rd_}, "__globals__": glob_l,
+                                                             "__global_lookup__": sentinel_globals})
+            out = ("imm", got) if not lcalls else ("loader", got)
+        except MI.Raised as r_:
+            out = ("raise", None)
+        if out != want or reads != [1] or (want[0] == "loader" and lcalls != [stream_obj]):
+            bad_l.append("tag %r: %s after reads %s" % (tag, out, reads))
+    okl = not bad_l
     rep.ob("R04.4", "brine._load: reads one tag byte and dispatches through both tables", okl,
            "tag = stream.read(1); IMM_INTS_LOADER / _load_registry" if okl else "_load no longer reads a 1-byte tag and "
-           "consults both tables", f_load.loc, kind="site")
+           "consults both tables: %s" % "; ".join(bad_l), f_load.loc, kind="table")
 
     # ------------------------------------------------------------------ R04.3 / R04.5 / R04.6
     rows = 0
